@@ -408,6 +408,11 @@ class Analysis:
                 for x in self.trans_for.get(self.resolve(md["rdy_run"]), []):
                     for y in self.trans_for.get(md["id"], []):
                         edges.add((x, y))
+        # readiness that depends on the run of another body needs that body declared scheduled before
+        befores = {(self.resolve(r["a"]), self.resolve(r["b"])) for r in self.prog.get("relations", []) if r["kind"] == "before"}
+        for md in list(self.mdefs.values()) + [b.node for b in self.bodies.values() if b.kind == "T"]:
+            if md.get("rdy_run") and (self.resolve(md["rdy_run"]), md["id"]) not in befores:
+                out.append(("rdy-run-without-schedule-before", md["id"]))
         self.prio_edges = edges
         if _cyclic(self.transactions, edges):
             out.append(("priority-cycle",))
